@@ -17,9 +17,25 @@ import (
 	"rare/pkg/extractor"
 	"rare/pkg/extractor/batchers"
 	"rare/pkg/matchers"
+	"rare/pkg/matchers/fastregex"
 
 	. "verifh/lib"
 )
+
+// composite key expressions over the groups {1}=key {2}=small integer {3}=RFC3339 timestamp {4}=float
+var libraryExprs = []string{
+	// numbers and logic
+	`{coalesce {9} {1}}|{bucket {2} 10}|{bucketrange {2} 10}|{clamp {2} 10 50}|{expbucket {2}}|{isint {2}}|{isnum {4}}|{sumi {2} 1}|{subi {2} 1}|{multi {2} 3}|{divi {2} 3}|{modi {2} 7}|{maxi {2} 50}|{mini {2} 50}|{sumf {4} 1.5}|{subf {4} 1}|{multf {4} 2}|{divf {4} 3}|{ceil {4}}|{floor {4}}|{log10 {2}}|{log2 {2}}|{ln {2}}|{pow {2} 2}|{sqrt {2}}|{round {4} 1}|{! "[2] * 2 + 1"}|{if {2} a b}|{switch {eq {1} k1} one {eq {1} k2} two other}|{unless {2} x}|{eq {1} k1}|{neq {1} k1}|{not {2}}|{lt {2} 50}|{gt {2} 50}|{lte {2} 50}|{gte {2} 50}|{and {1} {2}}|{or {9} {2}}`,
+	// strings, formats, humanize, json, csv, paths, drawing
+	`{len {0}}|{like {1} k}|{prefix {1} k}|{suffix {1} 1}|{format "%s-%5s" {1} {2}}|{substr {0} 1 5}|{select {0} 1}|{upper {1}}|{lower {1}}|{tab {1} {2}}|{basename /a/{1}.log}|{dirname /a/{1}/b}|{extname {1}.txt}|{hi {2}{2}{2}}|{hf {4}}|{bytesize {2}{2}{2}}|{bytesizesi {2}{2}{2}}|{downscale {2}{2}{2}}|{percent {4} 2 0 5000}|{json {1}}|{csv {1} {2} "a,b"}|{color red {1}}|{repeat ab 3}{repeat x {2}}|{$ {1} {2}}|{.}|{#}|{.#}|{src}|{line}`,
+	// arrays
+	`{@len {@split {0} " "}}|{@map {@split {0} " "} "{0}x"}|{@select {@split {0} " "} 1}|{@join {@split {0} " "} -}|{@reduce {@split {0} " "} {len {0}{1}} 0}|{@filter {@split {0} " "} {isnum {0}}}|{@slice {@split {0} " "} 1 2}|{@in {2} {@ 1 2 3 5 8 13 21 34 55 89}}|{@join {@range 0 {2} 7} ,}|{@for 0 {lt {0} {2}} {sumi {0} 13}}|{@ {1} {2} {4}}|{@map {@map {@split {0} " "} {upper {0}}} {len {0}}}`,
+	// a runaway {@for} (value 0 doubles to 0 for ever and ends in the <INF> branch after 1,000,000 rounds) on the
+	// first line only, then pooled sub-contexts used by all workers at once
+	`{@for {2} {lt {0} 100} {multi {0} 2}}|{@map {@split {0} " "} "{0}x"}|{@filter {@split {0} " "} {isnum {0}}}`,
+	// time
+	`{time {3}}|{time {3} RFC3339}|{time {3} RFC3339 utc}|{timeformat {time {3}} RFC1123Z}|{timeformat {time {3}} RFC3339 America/New_York}|{timeattr {time {3}} weekday}|{timeattr {time {3}} yearweek}|{buckettime {3} day}|{buckettime {3} hour RFC3339}|{duration {2}m{2}s}|{durationformat {2}{2}}|{time {timeformat {time {3}} NGINX} NGINX}`,
+}
 
 func main() {
 	seed, _ := strconv.ParseUint(os.Args[1], 10, 64)
@@ -43,9 +59,20 @@ func main() {
 			nl := r.Intn(400)
 			if c%4 == 0 {
 				nl = 20000 + r.Intn(20000) // long enough for the 100 ms ticker to render while matches are sampled
+			} else if c%2 == 1 {
+				nl = 1500 + r.Intn(1500) // enough batches for the workers to overlap inside the helper library
 			}
 			for l := 0; l < nl; l++ {
-				b = append(b, []byte(fmt.Sprintf("k%d v%d\n", r.Intn(6), r.Intn(100)))...)
+				if c%2 == 1 { // four fields for the helper-library expressions: key, small integer, timestamp, float
+					small := 1 + r.Intn(99)
+					if i == 0 && l == 0 {
+						small = 0
+					}
+					b = append(b, []byte(fmt.Sprintf("k%d %d 20%02d-%02d-%02dT%02d:%02d:%02dZ %d.%d\n", r.Intn(6), small,
+						r.Intn(40), 1+r.Intn(12), 1+r.Intn(28), r.Intn(24), r.Intn(60), r.Intn(60), r.Intn(5000), r.Intn(100)))...)
+				} else {
+					b = append(b, []byte(fmt.Sprintf("k%d v%d\n", r.Intn(6), r.Intn(100)))...)
+				}
 			}
 			os.WriteFile(p, b, 0o644)
 			names <- p
@@ -54,8 +81,24 @@ func main() {
 		batcher := batchers.OpenFilesToChan(names, false, 1+r.Intn(4), Pick(r, []int{1, 2, 7, 1000}), 1+r.Intn(4))
 		// expressions that use the pooled sub-contexts and buffers concurrently from several workers
 		extract := Pick(r, []string{"{0}", "{@map {@split {0} \" \"} \"{0}x\"}", "{sumi {1} 1}", "{@join {@split {0} \" \"} -}", "{bucket {1} 10}"})
+		var matcher matchers.Factory = &matchers.AlwaysMatch{}
+		workers := 1 + r.Intn(8)
+		if c%2 == 1 {
+			// the helper library evaluated by several workers at once on ONE compiled expression: every
+			// registered helper (except the file readers load/lookup/haskey) appears in one of these
+			// composite keys, so state shared between evaluations of a compiled stage (a scratch buffer,
+			// a memo, a reused sub-context) is written by two goroutines and the race detector sees it
+			extract = libraryExprs[(c/2)%len(libraryExprs)]
+			fr, ferr := fastregex.Compile(`^(\S+) (\S+) (\S+) (\S+)$`)
+			if ferr != nil {
+				fmt.Println("matcher:", ferr)
+				os.Exit(1)
+			}
+			matcher = matchers.ToFactory(fr)
+			workers = 2 + r.Intn(7)
+		}
 		ex, err := extractor.New(batcher.BatchChan(), &extractor.Config{
-			Matcher: &matchers.AlwaysMatch{}, Extract: extract, Workers: 1 + r.Intn(8),
+			Matcher: matcher, Extract: extract, Workers: workers,
 		})
 		if err != nil {
 			fmt.Println("extractor:", err)
